@@ -580,6 +580,7 @@ static void case_c13(rng_t *r, ctx_t *c) {
             int cls = (int) rng_below(r, 5);
             if (big && q == 0 && i == 0) cls = 5 + (int) rng_below(r, 3);      /* 64 KiB, 300-600 KB, > 1 MiB (rejected) */
             if (big && q == 1 && i == 0 && strmax == 6) cls = 6;               /* two long strings: their sum may pass 1 MiB */
+            if (big && i > 0 && q < 2 && rng_chance(r, 1, 2)) cls = 5 + (int) rng_below(r, 2);   /* definitions whose strings total more than one 1 MiB string block of the reader */
             if (cls > strmax) strmax = cls;
             ps->s[q] = make_string(r, cls, NULL);
         }
